@@ -56,6 +56,7 @@ fn main() {
         p @ ("C01" | "C02" | "C03" | "C04") => cvx::checks::static_checks::run(p, tier),
         "C07" => cvx::checks::static_checks::run_c07(tier),
         "C18" => cvx::checks::c18::run(tier),
+        "C13" => cvx::checks::c13::run(tier),
         "C10" => cvx::checks::c10::run(tier),
         "C19" => cvx::checks::c19::run(tier),
         "C12" => cvx::checks::c12::run(tier),
